@@ -429,7 +429,7 @@ def run_case(case):
 def main(tier, seed):
     V = core.Verdict(PROPERTY, tier, seed)
     r = core.rng(PROPERTY, seed)
-    nb = 200 if tier == 'quick' else 5000
+    nb = 400 if tier == 'quick' else 5000
     cases = {'rel': [], 'asan': []}
     for i in range(nb):
         cases['rel'].append(dict(seed=r.getrandbits(40), n=8, modes=['direct', 'line', 'tree', 'linetree'], resolvers=['record', 'merge', 'hardsphere']))
